@@ -161,16 +161,17 @@ Print Assumptions C09_sample_description_id_refuted.
    method calls (no bound on its length or on the rows per call); ctts_run / stsc_run fold the transcription of
    the Go method over it, cache fields included.  A refused call (error return) leaves the box untouched. *)
 
-(* a 3-call history for each of the two boxes that have builder methods; they build the ctts / stsc of ex_tb *)
+(* a history for each of the two boxes that have builder methods; they build the ctts / stsc of ex_tb.  The stsc
+   history contains calls with description id 0: AddEntry refuses them, SetSingle... ignores them (cb02a8f) *)
 Definition ex_ctts_calls : list (list N * list Z) := [([2], [0%Z]); ([], []); ([5], [(-3)%Z])].
-Definition ex_stsc_calls : list stsc_call := [SAdd 1 2 2; SSetSingle 1; SAdd 3 3 2].
+Definition ex_stsc_calls : list stsc_call := [SAdd 1 2 2; SSetSingle 0; SAdd 2 9 0; SSetSingle 1; SAdd 3 3 2].
 Example ex_histories :
   ctts_run ctts_empty ex_ctts_calls = mkCtts [0; 2; 7] [0%Z; (-3)%Z] /\
   t_ctts ex_tb = Some (ctts_run (ctts_decode []) ex_ctts_calls) /\
   existsb ctts_call_ok ex_ctts_calls = true /\
+  stsc_decode [] = Ok stsc_empty /\
   stsc_table [] ex_stsc_calls = [(1, 2, 1); (3, 3, 2)] /\
-  t_stsc ex_tb = stsc_run (stsc_of_table []) ex_stsc_calls /\
-  forallb stsc_call_ok ex_stsc_calls = true /\
+  t_stsc ex_tb = stsc_run stsc_empty ex_stsc_calls /\
   raw_ok (stsc_table [] ex_stsc_calls) = true /\ rows_ok (stsc_table [] ex_stsc_calls) (nchunks ex_tb) = true /\
   sumN (chunk_counts (S_entries (stsc_table [] ex_stsc_calls)) (nchunks ex_tb)) = nsamples ex_tb /\
   sumN (map fst ([] ++ ctts_table ex_ctts_calls)) = nsamples ex_tb.
@@ -202,16 +203,15 @@ Theorem C09_builder_ctts_query : forall raw0 calls,
 Proof. exact builder_ctts_query. Qed.
 Print Assumptions C09_builder_ctts_query.
 
-(* StscBox.AddEntry / SetSingleSampleDescriptionID: after ANY history of calls with 1-based description ids on a
-   decoded box (raw0 = [] : `&StscBox{}`, stsc_of_table [] = stsc_empty), the box — FirstSampleNr of every entry
-   and the single/slice representation of the ids included — is the closed form of the table the history
-   describes, and that is also what DecodeStscSR builds from this table (all arithmetic uint32, wrap-around
-   included) *)
-Theorem C09_builder_stsc : forall raw0 calls,
-  forallb nz (sdis raw0) = true -> forallb stsc_call_ok calls = true ->
-  stsc_table raw0 calls <> [] ->
-  stsc_decode raw0 = Ok (stsc_of_table raw0) /\
-  stsc_run (stsc_of_table raw0) calls = stsc_of_table (stsc_table raw0 calls) /\
+(* StscBox.AddEntry / SetSingleSampleDescriptionID (repaired text, cb02a8f): after ANY history of calls — no
+   hypothesis on the ids passed — on a box DecodeStscSR returned (raw0 = [] : `&StscBox{}` = stsc_empty), the box —
+   FirstSampleNr of every entry and the single/slice representation of the ids included — is the closed form of the
+   table the history describes, and that is also what DecodeStscSR builds from this table (all arithmetic uint32,
+   wrap-around included).  A call with id 0 changes neither the box nor the table. *)
+Theorem C09_builder_stsc : forall raw0 b0 calls,
+  stsc_decode raw0 = Ok b0 -> stsc_table raw0 calls <> [] ->
+  b0 = stsc_of_table raw0 /\
+  stsc_run b0 calls = stsc_of_table (stsc_table raw0 calls) /\
   stsc_decode (stsc_table raw0 calls) = Ok (stsc_of_table (stsc_table raw0 calls)).
 Proof. exact builder_stsc. Qed.
 Print Assumptions C09_builder_stsc.
@@ -225,26 +225,30 @@ Theorem C09_stsc_cache : forall raw, raw_ok raw = true ->
 Proof. exact stsc_cache. Qed.
 Print Assumptions C09_stsc_cache.
 
-(* without 1-based ids the statement is false of the faithful model: AddEntry(…, 0) after an entry with another id
-   leaves SampleDescriptionID one element short, GetSampleDescriptionID of the new run's chunk panics
-   (DecodeStscSR refuses id 0, AddEntry does not look) *)
+(* the pinned text (f87a9e4) did not look at the id (finding C09-F5, fixed): AddEntry(…, 0) after an entry with
+   another id left SampleDescriptionID one element short, GetSampleDescriptionID of the new run's chunk panicked
+   (DecodeStscSR refuses id 0); the repaired text refuses the call and leaves the box of the first two rows *)
 Theorem C09_builder_stsc_zero_id_refuted :
-  let b := stsc_run stsc_empty [SAdd 1 2 1; SAdd 3 1 2; SAdd 4 1 0] in
+  let h := [SAdd 1 2 1; SAdd 3 1 2; SAdd 4 1 0] in
+  let b := stsc_run_pinned stsc_empty h in
   sc_ids b = [1; 2] /\ lenN (sc_entries b) = 3 /\ stsc_get_sample_description_id b 4 = Panic /\
-  stsc_decode [(1, 2, 1); (3, 1, 2); (4, 1, 0)] = Err.
+  stsc_decode [(1, 2, 1); (3, 1, 2); (4, 1, 0)] = Err /\
+  stsc_run stsc_empty h = stsc_of_table [(1, 2, 1); (3, 1, 2)] /\
+  stsc_get_sample_description_id (stsc_run stsc_empty h) 4 = Ok 2.
 Proof. vm_compute. repeat split. Qed.
 Print Assumptions C09_builder_stsc_zero_id_refuted.
 
-(* the bridge: table boxes built by ANY histories (ctts absent or built; stsc built) whose file-level tables are
-   consistent make `consistent` hold, so that EVERY query theorem above applies to API-built tables *)
-Theorem C09_builder_consistent : forall tb craw0 ccalls sraw0 scalls,
+(* the bridge: table boxes built by ANY histories (ctts absent or built; stsc built from a decoded or empty box, no
+   hypothesis on the ids passed) whose file-level tables are consistent make `consistent` hold, so that EVERY query
+   theorem above applies to API-built tables *)
+Theorem C09_builder_consistent : forall tb craw0 ccalls sraw0 sb0 scalls,
   is_u32 (nsamples tb + 1) = true -> stts_ok tb = true -> stsz_ok tb = true -> offsets_ok tb = true ->
   stss_ok tb = true -> sdtp_ok tb = true ->
   (t_ctts tb = None \/
    (t_ctts tb = Some (ctts_run (ctts_decode craw0) ccalls) /\
     sumN (map fst (craw0 ++ ctts_table ccalls)) = nsamples tb)) ->
-  forallb nz (sdis sraw0) = true -> forallb stsc_call_ok scalls = true ->
-  t_stsc tb = stsc_run (stsc_of_table sraw0) scalls ->
+  stsc_decode sraw0 = Ok sb0 ->
+  t_stsc tb = stsc_run sb0 scalls ->
   raw_ok (stsc_table sraw0 scalls) = true -> rows_ok (stsc_table sraw0 scalls) (nchunks tb) = true ->
   match stsc_table sraw0 scalls with (fc, _, _) :: _ => fc = 1 | [] => False end ->
   sumN (chunk_counts (S_entries (stsc_table sraw0 scalls)) (nchunks tb)) = nsamples tb ->
